@@ -136,6 +136,8 @@ def stages(tier, rng, only=None):
     out.append(Stage("after_mutation", "Trace_Cost", run_case,
                      lambda: _mut_cases(grids.datasets(3, 2) + [ac.random_dataset(rng, 6, 5, nmin=2) for _ in range(n_rand)],
                                         sch), _nt, _init))
+    out.append(Stage("larger", "Trace_Cost", run_case,
+                     lambda: _cases([ac.larger_dataset(rng) for _ in range(n_rand // 3)], sch2, nm, False), _nt, _init))
     if tier == "thorough":
         out.append(Stage("grid3x3", "Trace_Cost", run_case, lambda: _cases(grids.datasets(3, 3), sch2, nm, False),
                          _nt, _init))
